@@ -142,6 +142,58 @@ def run_one(mods, src: str, opts=None) -> dict | None:
                 "frames": frames[-8:], "input": src}
 
 
+# ---- round 5: the constant kinds admitted as bounds by symbolic_math.simplify_boolean_expressions (T04.9) -----------
+
+KIND_VALUES = {      # kind -> (constructor of DriverModel.bkind, sample values; the first two are an ordered pair of literals)
+    "int": ("BkInt", [3, 7, -1, 0, 10 ** 30]), "float": ("BkFloat", [2.5, 7.25, float("nan"), float("inf"), -0.0]),
+    "bool": ("BkBool", [False, True]), "str": ("BkStr", ["a", "b", "", "\u00e9"]), "bytes": ("BkBytes", [b"a", b"b", b""]),
+    "none": ("BkNone", [None]), "tuple": ("BkTuple", [(1, 2), (1, 3), (), (1, "a"), ("a",)]),
+    "complex": ("BkComplex", [1j, 2j, 1 + 0j]),
+}
+
+
+def kind_guard_cases(mods) -> tuple[list[dict], list[str]]:
+    """(observations, Coq cases).  AdmitCase: does a constant of kind k take part in the redundant-bound analysis?  Observed on
+    the real rule with two bounds of the SAME kind on one operand (`n >= c1 and n >= c2`, `n > c or n >= c`): the text
+    changes (or the rule raises inside the analysis) iff the kind is admitted.  OrderCase: `a < b` on CPython for all the
+    sample values of two kinds = DriverModel.orderable (the reference semantics of T04.9)."""
+    rule = mods["symbolic_math"].simplify_boolean_expressions
+    obs, coq = [], []
+    for kind, (ctor, vals) in KIND_VALUES.items():
+        lits = [repr(v) for v in vals if v == v and v not in (float("inf"),)][:2]
+        c1, c2 = lits[0], lits[-1]
+        srcs = [f"if n >= {c1} and n >= {c2}:\n    print(n)\n", f"if n > {c1} or n >= {c1}:\n    print(n)\n",
+                f"if n < {c2} and n <= {c2} and n < {c1}:\n    print(n)\n"]
+        if c1 == c2:       # a kind with one value (None): identical operands are dropped by another mechanism; use < vs <= only
+            srcs = [srcs[1], f"if n < {c1} and n <= {c1}:\n    print(n)\n"]
+        took_part, detail = False, []
+        for src in srcs:
+            mods["core"].parse.cache_clear()
+            try:
+                with common.quiet():
+                    out = rule(src)
+                detail.append(out)
+                took_part |= out != src
+            except Exception as e:  # noqa
+                detail.append(f"<raised {type(e).__name__}: {e}>")
+                took_part = True
+        obs.append({"case": "admitted", "kind": kind, "sources": srcs, "took_part": took_part, "outputs": detail})
+        coq.append(f"AdmitCase {ctor} {str(took_part).lower()}")
+    for k1, (c1, v1) in KIND_VALUES.items():
+        for k2, (c2, v2) in KIND_VALUES.items():
+            defined = True
+            for a in v1:
+                for b in v2:
+                    for f in (lambda x, y: x < y, lambda x, y: x <= y, lambda x, y: x > y, lambda x, y: x >= y):
+                        try:
+                            f(a, b)
+                        except TypeError:
+                            defined = False
+            obs.append({"case": "orderable", "kinds": [k1, k2], "always_defined": defined})
+            coq.append(f"OrderCase {c1} {c2} {str(defined).lower()}")
+    return obs, coq
+
+
 def check(run: common.Run):
     wd = common.workdir(PID)
     t_start = time.time()
@@ -200,6 +252,17 @@ def check(run: common.Run):
             disagreements.append({"kind": "correspondence", "kernel": "K1 fix/chain pass bound (T04.1')",
                                   "case": {"which": which, "max_iter": mi, "passes": len(calls), "out": out}})
     hist["fix/chain bound cases"] = 3
+
+    # (d) T04.9: the kinds of constants the bound analysis of simplify_boolean_expressions admits / CPython's ordering
+    kobs, kcoq = kind_guard_cases(mods)
+    bad, errs = drv.run_simple_cases(wd, "kinds", "kind_case", "kind_case_ok", kcoq)
+    disagreements += errs
+    for i in bad:
+        disagreements.append({"kind": "correspondence", "kernel": "K7 bound_admitted / orderable (T04.9: isinstance guard of "
+                              "symbolic_math.simplify_boolean_expressions, CPython ordering of constant kinds)", "case": kobs[i],
+                              "explanation": "the set of constant kinds collected as bounds (or CPython's ordering between kinds) "
+                                             "differs from DriverModel.v: T04.9 no longer speaks about the code"})
+    hist["bound-kind cases"] = len(kcoq)
 
     # ---- sweep (not proof)
     fam = sw.build_corpus(run.tier)
@@ -370,7 +433,7 @@ def check(run: common.Run):
                        "explanation": "a property theorem no longer checks"}, have_input)
 
     run.coverage.update(
-        evaluations=fc["evaluations"] + hist["early-return cases"] + 3 + n_wrap,
+        evaluations=fc["evaluations"] + hist["early-return cases"] + 3 + n_wrap + len(kcoq),
         distinct_nontrivial=fc["distinct"],
         rule=("correspondence cases: main.format_code with every stage replaced by a table lookup: all f : 4 -> 4 on "
               "one stage of _multi_run_fixes x start x safe x keep_imports x {module, indented fragment} (quick: 1/4 "
